@@ -53,9 +53,9 @@ Proof. exact scan_group_api. Qed.
 Print Assumptions c12_api_isolation.
 
 (* two worlds, one RunOnce each: whatever differs outside what group g can see (other groups' nodes, pods, API copies,
-   cloud groups), if g is reached in both runs its journal, the memory it leaves and its outcome are the same *)
+   cloud groups, and the other groups' own configuration, memory and oracles), if g is reached in both runs its journal, the memory it leaves and its outcome are the same *)
 Theorem c12_run_once_isolated : forall s s' g,
-  s_groups s = s_groups s' -> s_now s = s_now s' -> s_dry s = s_dry s' -> wf_groups s -> In g (s_groups s) ->
+  s_now s = s_now s' -> s_dry s = s_dry s' -> wf_groups s -> wf_groups s' -> In g (s_groups s) -> In g (s_groups s') ->
   group_nodes (gi_opts g) (s_nodes s) = group_nodes (gi_opts g) (s_nodes s') ->
   group_pods (gi_opts g) (s_pods s) = group_pods (gi_opts g) (s_pods s') ->
   api_agree (s_api s) (s_api s') (group_nodes (gi_opts g) (s_nodes s)) ->
